@@ -209,6 +209,47 @@ PROPS["C03"] = dict(
     design="DESIGN.md §4 C03",
 )
 
+PROPS["C05"] = dict(
+    technique="static analysis: def-use of the written region and write target in the task body, common-origin of storage chunks / write-proxy chunks / task grid in the primitive, guard-dominance for caller-supplied targets",
+    text=(
+        "Decides the layout part: the task body stores only into write proxies from config.writes_map, into "
+        "the region key_to_slices(<its own coordinates>, proxy.array, proxy.chunks), by plain assignment and "
+        "without reading the target; in the primitive the storage chunk size, the write-proxy chunk size and "
+        "the task enumeration come from one normalised grid per output (tasks <-> write chunks is a bijection; "
+        "outputs with different block counts are refused); fused operations keep the successor's grid; and a "
+        "caller-supplied storage array becomes a target only behind a shards/chunks compatibility guard — the "
+        "missing chunks guard in _store_array is reproduced known finding F6."
+    ),
+    note="Does not decide that split_chunks/_fix_copy_chunks produce aligned grids for every rechunk geometry (arithmetic, see C14) nor zarr's own write atomicity.",
+    design="DESIGN.md §4 C05",
+)
+PROPS["C06"] = dict(
+    technique="static analysis: effect closure over the task-reachable function set (registered block/key/selection functions and callees), freshness analysis of in-place mutations, seed provenance of generators, open-or-create mode constants",
+    text=(
+        "Removes the schedule from the question: everything a task can execute (the task body, ~140 "
+        "registered block / key / selection / combine functions, fusion wrappers and their callees) is shown "
+        "free of process-global writes, ambient nondeterminism, spawning and in-place mutation of objects it "
+        "did not create; it writes only its own region with plain stores; random blocks are keyed by "
+        "root seed + block offset, both task parameters; arrays are created open-or-create and nothing "
+        "reachable from a task deletes data. Then any order, repetition or placement yields the same chunks."
+    ),
+    note="User-supplied callables are outside the closure; bit-identical NumPy kernels across processes, cloudpickle fidelity and zarr write atomicity are assumed.",
+    design="DESIGN.md §4 C06",
+)
+PROPS["C11"] = dict(
+    technique="static analysis: return-path provenance of _store_array (one fresh operation per pair), raise-dominance of the rejection guards, guard on the eager branch, target compatibility guard",
+    text=(
+        "Decides the call-shape part: store pairs sources, targets and regions one-to-one and every "
+        "non-None target must get a freshly built blockwise/general_blockwise operation bound to that call's "
+        "target (the in-place branch returning the shared source is reproduced known finding F5); length, "
+        "type, region-without-target, alignment and shape rejections are ValueErrors that precede operation "
+        "construction; execution happens only under `compute` over all built arrays; targets whose chunking "
+        "differs from the source's need a compatibility guard (known finding F6)."
+    ),
+    note="Does not decide the copied values nor sentinel preservation outside the region (needs execution).",
+    design="DESIGN.md §4 C11",
+)
+
 CLAIMED = sorted(PROPS)
 
 NOT_APPLICABLE = {
